@@ -211,7 +211,7 @@ def run_probes(tools, opts_list=None):
     for oi, o in enumerate(opts_list):
         for pi, p in enumerate(P):
             jobs.append({"id": oi * 100000 + pi, "src": program(p), "opts": o})
-    res = glslcorr.compile_jobs(tools, jobs)
+    res = glslcorr.compile_jobs(tools, jobs, want=("validate",), chunk=512, workers=2)
     rows, problems = [], []
     for j in jobs:
         oi, pi = divmod(j["id"], 100000)
